@@ -124,6 +124,9 @@ def run_smtp_case(case):
                 env.recipients[case['utf8_rcpt']] = 'b\u00e9b\u00e9%d@m%d.example' % (case['utf8_rcpt'], a)
             if case.get('utf8_sender'):
                 env.sender = 's\u00e9nder@example.com'
+            dup = case.get('dup')
+            if dup and max(dup) < len(env.recipients) and dup[0] != dup[1]:
+                env.recipients[dup[0]] = env.recipients[dup[1]]         # the same mailbox named twice
             rcpts = list(env.recipients)
             marks = [len(p.log) for p in peers]
             got = AsyncResult()
@@ -143,7 +146,7 @@ def run_smtp_case(case):
             if isinstance(res, Raised) and isinstance(res.exc, WouldBlockForever):
                 out.append(('C11:client-waits-for-a-reply-that-is-not-owed:%s' % case['kind'], '%s: attempt #%d' % (desc, a)))
                 break
-            verdicts, bad = classify_result(res, rcpts)
+            verdicts, bad = classify_result(res, sorted(set(rcpts)) if len(set(rcpts)) < len(rcpts) else rcpts)
             if bad:
                 kindsig = 'other-exception:%s' % type(res.exc).__name__ if isinstance(res, Raised) else 'malformed-result'
                 out.append(('C11:%s:%s' % (kindsig, case['kind']), '%s: attempt #%d: %s' % (desc, a, bad)))
@@ -205,11 +208,22 @@ def run_smtp_case(case):
                 for (m, sender, acc, data) in p.accepted_msgs:
                     if sender == env.sender and data.find(('X-Tag: m%d' % a).encode()) != -1:
                         truth.update(acc)
-            for i, r in enumerate(rcpts):
+            def applicable(i):
                 app = list(applies_all) + list(applies_rcpt.get(i, []))
                 if i in accepted_order:
                     app += applies_rcpt.get(('eod', accepted_order.index(i)), [])
+                return app
+            for i, r in enumerate(rcpts):
+                app = applicable(i)
                 v = verdicts[r]
+                positions = [x for x, other in enumerate(rcpts) if other == r]
+                if len(positions) > 1:
+                    # one mailbox named more than once gets one verdict: that of any of its occurrences is acceptable
+                    apps = [applicable(x) for x in positions]
+                    if v == 'ok' and any(not a_ for a_ in apps):
+                        app = []
+                    elif v != 'ok':
+                        app = [o for a_ in apps for o in a_]
                 if v == 'ok':
                     if app or r not in truth:
                         out.append(('C11:success-reported-without-acceptance:%s' % case['kind'],
@@ -290,6 +304,11 @@ def smtp_table():
                         script['DATA'] = data
                         yield {'kind': kind, 'pipelining': pipelining, 'nrcpt': n, 'scripts': [script]}
             yield {'kind': kind, 'pipelining': pipelining, 'nrcpt': 2, 'scripts': [{'EHLO': '500'}]}
+            # one mailbox named twice, next to another recipient; each RCPT command / end-of-data reply in turn refused
+            for dup in ([1, 0], [2, 0], [2, 1]):
+                for stage in ['RCPT0', 'RCPT1', 'RCPT2'] + (['EOD0', 'EOD1', 'EOD2'] if kind == 'lmtp' else []):
+                    for outc in ('4xx', '5xx'):
+                        yield {'kind': kind, 'pipelining': pipelining, 'nrcpt': 3, 'dup': dup, 'scripts': [{stage: outc}]}
             # addresses that cannot be sent to this peer (no SMTPUTF8 on offer)
             for n in (1, 2, 3):
                 for i in range(n):
@@ -333,6 +352,7 @@ def smtp_random(draw):
     return {'kind': kind, 'pipelining': draw(st.booleans()), 'nrcpt': n, 'starttls': draw(st.booleans()),
             'tls_required': draw(st.booleans()), 'auth': draw(st.booleans()), 'reuse': draw(st.booleans()),
             'multiline': draw(st.booleans()), 'chunks': draw(st.sampled_from([None, [1], [3, 7]])),
+            'dup': draw(st.sampled_from([None, None, None, [1, 0], [2, 0], [2, 1]])),
             'scripts': [script, script2]}
 
 
